@@ -690,24 +690,43 @@ def char_in(c, chars: Optional[str]):
     return Or(*[c == S(ch) for ch in chars])
 
 
+_STRIP_FNS = {}
+
+
+def strip_fns(chars: Optional[str]):
+    key = "ws" if chars is None else "".join(f"{ord(c):x}_" for c in chars)
+    if key not in _STRIP_FNS:
+        _STRIP_FNS[key] = (z3.Function(f"strip_first_{key}", z3.StringSort(), z3.IntSort()),
+                           z3.Function(f"strip_last_{key}", z3.StringSort(), z3.IntSort()))
+    return _STRIP_FNS[key]
+
+
 def str_strip(e: Engine, st: State, s, attr: str, chars: Optional[str]) -> SV:
-    lo = z3.Int(fresh_name("strip_lo"))
-    hi = z3.Int(fresh_name("strip_hi"))
+    """E-STR strip family.  FN(s) / LN(s) are *functions* of the string (one pair per character set):
+    LN(s) = 1 + index of the last character not in `chars` (0 if none), FN(s) = index of the first such
+    character (= LN(s) if none); s.strip(c) == s[FN:LN], s.rstrip(c) == s[:LN].  Being functions, two strip
+    calls on equal strings agree, and strip(s) is visibly inside rstrip(s)."""
+    FN, LN = strip_fns(chars)
+    lo, hi = FN(s), LN(s)
     n = z3.Length(s)
-    r = z3.SubString(s, lo, hi - lo)
     j = z3.Int(fresh_name("j"))
-    st.assume(And(0 <= lo, lo <= hi, hi <= n))
-    if attr == "rstrip":
-        st.assume(lo == 0)
-    if attr == "lstrip":
-        st.assume(hi == n)
     at = lambda i: z3.SubString(s, i, 1)
-    if attr != "rstrip":
-        st.assume(z3.ForAll([j], Implies(And(j >= 0, j < lo), char_in(at(j), chars)), patterns=[at(j)]))
-        st.assume(Implies(lo < hi, Not(char_in(at(lo), chars))))
-    if attr != "lstrip":
+    key = (attr != "x", s.sexpr(), chars)
+    done = st.__dict__.setdefault("_strip_ax", set())
+    if key not in done:
+        done.add(key)
+        st.assume(And(0 <= lo, lo <= hi, hi <= n))
+        st.assume(Implies(hi > 0, Not(char_in(at(hi - 1), chars))))
         st.assume(z3.ForAll([j], Implies(And(j >= hi, j < n), char_in(at(j), chars)), patterns=[at(j)]))
-        st.assume(Implies(lo < hi, Not(char_in(at(hi - 1), chars))))
+        st.assume(Implies(lo < hi, Not(char_in(at(lo), chars))))
+        st.assume(z3.ForAll([j], Implies(And(j >= 0, j < lo), char_in(at(j), chars)), patterns=[at(j)]))
+    if attr == "strip":
+        r = z3.SubString(s, lo, hi - lo)
+    elif attr == "rstrip":
+        r = z3.SubString(s, 0, hi)
+    else:
+        # lstrip: from the first non-strippable character to the end (everything if none)
+        r = z3.If(lo < hi, z3.SubString(s, lo, n - lo), z3.StringVal(""))
     sv = SV(STR, r)
     sv.tag = ("strip", s, lo, hi)
     return sv
